@@ -1,2 +1,3 @@
+import Model.Layout
 import Model.Paginate
 import Model.PaginateSpec
